@@ -90,11 +90,24 @@ Definition ev_dom (c : doccase) : bool :=
      end.
 
 (* renderer correspondence, on the implementation's own tree *)
+Fixpoint tree_in_sigma (e : element) : bool :=
+  match e with
+  | Elem n _ _ _ at_ ch _ =>
+      forallb in_sigma n && forallb (fun a => forallb in_sigma (snd a)) at_
+      && (fix go (cs : list (nec * element)) : bool :=
+            match cs with [] => true | c :: r => tree_in_sigma (snd c) && go r end) ch
+  end.
+(* the character tables are claimed faithful on Sigma only: renderings of trees with a name outside
+   Sigma (bit-flipped UTF-8 in the hostile byte strings of C07 / C08) are not compared *)
 Definition ev_bytes (c : doccase) : bool :=
   match dc_impl c with
-  | ITree e => forallb (fun '(o, h, _) => (hash63 (to_serde_struct o e) =? h)%uint63) (dc_renders c)
+  | ITree e => negb (tree_in_sigma e) || forallb (fun '(o, h, _) => (hash63 (to_serde_struct o e) =? h)%uint63) (dc_renders c)
   | _ => is_nil (dc_renders c)
   end.
+
+(* cases whose rendering is compared (Ok results with every name inside Sigma) *)
+Definition in_hyp_sigma (c : doccase) : bool :=
+  match dc_impl c with ITree e => tree_in_sigma e | _ => false end.
 
 (* what the model renders, for replay files *)
 Definition show_case (c : doccase) :=
@@ -106,7 +119,16 @@ Definition show_case (c : doccase) :=
 (* ---- oracles ---- *)
 (* C03: the implementation's tree, children put in `position` order, is exactly the tree
    inferred from the DOM (names, tags, standalone, count, attribute order, positions) *)
-Definition in_hyp_docs (c : doccase) : bool := negb (is_nil (dc_docs c)) && docs_ok (dc_docs c).
+(* the hypotheses of the C03 / C01 / C06 theorems: one root element per document, a common root
+   name, and no element with a duplicated attribute name (a reader error, not a document) *)
+Fixpoint node_wf_b (nd : node) : bool :=
+  match nd with
+  | NElem _ _ a ks => nodup_b str_eqb a
+                      && (fix go (l : list node) : bool := match l with [] => true | k :: r => node_wf_b k && go r end) ks
+  | _ => true
+  end.
+Definition in_hyp_docs (c : doccase) : bool :=
+  negb (is_nil (dc_docs c)) && docs_ok (dc_docs c) && forallb (forallb node_wf_b) (dc_docs c).
 Definition or_exact (c : doccase) : bool :=
   if in_hyp_docs c then
     match dc_impl c, infer (dc_docs c) with
